@@ -6,12 +6,27 @@
   library's by `TieC05.lnConsts_are_standard`), `pre`/`rest` arbitrary surrounding bytes
   (other programs of the section), `env` any enum environment.  `hsz` says the unit ends below
   `PY_SSIZE_T_MAX` (2^63 − 1): beyond it `io.BytesIO.seek` raises OverflowError.
+
+  Proved (all versions 2–5, both formats, byte orders, address sizes, any surrounding bytes):
+    header round trip incl. v5 entry formats / resolved names / legacy views (`line_header_roundtrip`,
+    `line_header_roundtrip_v5`, `line_header_roundtrip_ext`), rows = the standard's machine and exact extent
+    (`line_rows_eq_std`, `line_consumes_extent`, `line_rows_eq_std_ext`), designation and cache
+    (`stmt_list_designates(_v5)`, `stmt_list_absent`, `linetable_cache_coherent`), end to end
+    (`line_program_end_to_end(_v5/_ext)`), `header_length` honoured (`line_header_length_honoured`), exact
+    behaviour with zero divisors (`line_zero_division`, `line_rows_eq_std_ext`).
+  Correspondence only (model == library on every run, no theorem): malformed input and the errors it raises
+    (stream `raw`: truncation, `header_length` smaller than the known fields, forms §6.2.4.1 does not allow,
+    version 5 tables without a first entry — the legacy views stay `None` —, DW_LNE_define_file in version 5,
+    non-standard operand counts for the twelve standard opcodes, a line table whose DWARF format differs from
+    the unit's), `get_entries()` memoisation and the mutation of a cached header by DW_LNE_define_file across
+    queries, offsets beyond `PY_SSIZE_T_MAX`.
 -/
 import PyElf.Spec.LineProgram
 import PyElf.Model.LineProgram
 import PyElf.Proofs.LineProgram
 import PyElf.Proofs.LineHeader
 import PyElf.Proofs.LineHeaderV5
+import PyElf.Proofs.LineUnitExt
 import PyElf.Model.Env
 import PyElf.Props.TieC05
 namespace PyElf.Props.C05
@@ -111,8 +126,9 @@ theorem gen_env_ok (S : DwarfStructs) : EnvOK (Model.dwarfEnv S) where
     strp, strp_sup, data1/2/4/8, udata, data16, block —, DW_FORM_line_strp / strp / strp_sup offsets
     resolved to the strings they designate in .debug_line_str / .debug_str / the supplementary
     .debug_str, and the legacy-compatible `include_directory` / `file_entry` tables derived from them),
-    whose program starts right after the header (`program_start = tell()`) and ends at the declared
-    `unit_length`.
+    whose program starts `header_length` bytes past the `header_length` field — for these units (no
+    extension bytes; see `line_header_roundtrip_ext` for the others) right after the last table — and ends
+    at the declared `unit_length`.
 
     For version 5 only: `henv` says `env` decodes the DW_LNCT_* / DW_FORM_* codes to the standard's
     names (true of the regenerated tables: `gen_env_ok`), `hsecs` that `msecs`, the sections of the
@@ -291,6 +307,299 @@ theorem line_rows_v5_instance :
         | .ok (es, _, tell) => decide (rowsOf es = stdRun exHeader5.p exProgram5)
             && decide (tell = 1 + (encodeUnit exHeader5 exProgram5).length)
         | .error _ => false)
+     | .error _ => false) = true := by decide +kernel
+
+/-! ## fourth wave
+
+  (1) `header_length` is honoured (repaired in /repo, fixes/C05-header-length-program-start.patch): the
+      program starts `header_length` bytes past the `header_length` field, wherever the parse of the tables
+      stopped.  Units are `encodeUnitX h ext body` (Spec/LineProgramExt.lean): `ext` are bytes the standard
+      does not define (vendor extension, padding) between the last table and the program, covered by
+      `header_length`; `ext = []` is the unit of the theorems above (`encodeUnitX_nil`).
+  (2) the header round trip and the rows need the parameters only to be ENCODABLE (`unitWFX`: every field in
+      range; `maximum_operations_per_instruction`, `line_range`, `minimum_instruction_length` may be 0 or
+      255) as long as no executed instruction divides by a field that is 0 (`progOK`); an instruction that does
+      (`Instr.divZero`: a special opcode / DW_LNS_const_add_pc with `line_range = 0`, any operation advance
+      with `maximum_operations_per_instruction = 0`) makes `get_entries()` raise ZeroDivisionError.
+  (3) the version 5 header end to end under the regenerated enum tables, with the resolved names and the
+      legacy `include_directory` / `file_entry` views spelled out. -/
+
+/-- **Header, versions 2–5, `header_length` ≥ the known fields, encodable parameters.**
+    `_parse_line_program_at_offset` returns the `LineProgram` object whose header is the encoded one
+    (`unit_length`, `header_length` as laid out; every parameter, also 0 / 255; tables; v5 entry formats,
+    resolved names, legacy views), whose program starts `header_length` bytes past the `header_length`
+    field — behind the extension bytes — and ends at the declared `unit_length`. -/
+theorem line_header_roundtrip_ext (env : Env) (cfg : DwarfCfg) (msecs : Secs) (h : Header) (secs : StrSecs)
+    (ext body pre rest : Bytes) (hwf : unitWFX h secs ext body = true)
+    (hle : h.p.le = cfg.le) (hfmt : cfg.fmt = if h.fmt64 then 64 else 32)
+    (henv : h.version ≥ 5 → EnvOK env) (hsecs : h.version ≥ 5 → SecsView msecs secs) :
+    parseLineProgramFresh env (Spec.dwarfStructs cfg) cfg.fmt msecs (pre ++ encodeUnitX h ext body ++ rest) pre.length
+      = .ok (lpOfX h secs ext body pre.length) :=
+  parseFreshX_all msecs h secs ext body pre rest hwf hle hfmt henv hsecs
+
+/-- what `lpOfX` says about the extent: the program is exactly `body` — it starts behind `ext`, at the byte
+    `header_length` designates, and ends where `unit_length` says -/
+theorem line_header_length_honoured (h : Header) (secs : StrSecs) (ext body pre rest : Bytes) :
+    (lpOfX h secs ext body pre.length).program_start_offset
+        = pre.length + initLenSize h.fmt64 + (h.midX ext).length + (h.tail.length + ext.length)
+    ∧ (lpOfX h secs ext body pre.length).program_end_offset
+        = (lpOfX h secs ext body pre.length).program_start_offset + body.length
+    ∧ (pre ++ encodeUnitX h ext body ++ rest).drop (lpOfX h secs ext body pre.length).program_start_offset
+        = body ++ rest := by
+  refine ⟨by simp [lpOfX, headerSizeX]; omega, ?_, drop_bodyX h ext body pre rest⟩
+  simp only [lpOfX, encodeUnitX_length]; omega
+
+/-- the units of the theorems of the first waves are the units without extension bytes -/
+theorem line_unit_without_extension (h : Header) (secs : StrSecs) (is : List Instr) (off : Nat) :
+    encodeUnitX h [] (encodeProgram h.p is) = encodeUnit h is
+    ∧ lpOfX h secs [] (encodeProgram h.p is) off = lpOf h secs is off
+    ∧ (unitWF h secs is = true → unitWFX h secs [] (encodeProgram h.p is) = true) :=
+  ⟨encodeUnitX_nil h is, lpOfX_nil h secs is off, unitWF_X⟩
+
+/-- **Rows and extent, any `header_length` ≥ the known fields, encodable parameters.**  If no instruction
+    of the program divides by a zero field, the rows are the standard's and decoding ends at the unit's end:
+    extension bytes produce no rows; `maximum_operations_per_instruction = 0` / `line_range = 0` do not matter
+    to programs that never divide by them; `minimum_instruction_length` 0 and 255,
+    `maximum_operations_per_instruction` 255 are ordinary values. -/
+theorem line_rows_eq_std_ext (env : Env) (cfg : DwarfCfg) (h : Header) (secs : StrSecs) (ext : Bytes) (is : List Instr)
+    (pre rest : Bytes) (hwf : unitWFX h secs ext (encodeProgram h.p is) = true) (hs : h.p.stdLensOK = true)
+    (hprog : progOK h.p h.version is = true) (hle : h.p.le = cfg.le) (hasz : h.p.asz = cfg.asz)
+    (hsz : pre.length + (encodeUnitX h ext (encodeProgram h.p is)).length ≤ ssizeMax) :
+    ∃ entries,
+      decodeLineProgram env (Spec.dwarfStructs cfg) specConsts (pre ++ encodeUnitX h ext (encodeProgram h.p is) ++ rest)
+          (lpOfX h secs ext (encodeProgram h.p is) pre.length)
+        = .ok (entries,
+               (lpOfX h secs ext (encodeProgram h.p is) pre.length).fileEntry.map (· ++ (definedFiles is).map FileEntry.obs),
+               pre.length + (encodeUnitX h ext (encodeProgram h.p is)).length)
+      ∧ rowsOf entries = stdRun h.p is :=
+  decode_lpOfX h secs ext is pre rest hwf hs hprog hle hasz hsz
+
+/-- **Division by zero (exact behaviour).**  `is1` divides by no zero field, `i` does: `get_entries()` raises
+    ZeroDivisionError — no rows at all are delivered, not even those of `is1`.  (The standard's formulas
+    §6.2.5.1 give such an instruction no meaning: the unit is outside the property's quantifier.) -/
+theorem line_zero_division (env : Env) (cfg : DwarfCfg) (h : Header) (secs : StrSecs) (ext : Bytes)
+    (is1 : List Instr) (i : Instr) (is2 : List Instr) (pre rest : Bytes)
+    (hwf : unitWFX h secs ext (encodeProgram h.p (is1 ++ i :: is2)) = true) (hs : h.p.stdLensOK = true)
+    (hprog : progOK h.p h.version is1 = true) (hw : i.WF h.p h.version = true) (hz : i.divZero h.p = true)
+    (hle : h.p.le = cfg.le) (hasz : h.p.asz = cfg.asz)
+    (hsz : pre.length + (encodeUnitX h ext (encodeProgram h.p (is1 ++ i :: is2))).length ≤ ssizeMax) :
+    decodeLineProgram env (Spec.dwarfStructs cfg) specConsts
+        (pre ++ encodeUnitX h ext (encodeProgram h.p (is1 ++ i :: is2)) ++ rest)
+        (lpOfX h secs ext (encodeProgram h.p (is1 ++ i :: is2)) pre.length)
+      = .error .zeroDivision :=
+  decode_lpOfX_divZero h secs ext is1 i is2 pre rest hwf hs hprog hw hz hle hasz hsz
+
+/-- which instructions divide by which field: exactly the standard's (§6.2.5.1, §6.2.5.2) -/
+theorem line_divZero_iff (p : Params) (i : Instr) :
+    i.divZero p = true ↔
+      ((∃ op, i = .special op) ∨ i = .constAddPc) ∧ (p.lineRange = 0 ∨ p.maxOps = 0)
+      ∨ (∃ n, i = .advancePc n) ∧ p.maxOps = 0 := by
+  cases i <;> simp [Instr.divZero, Instr.usesLineRange, Instr.advances]
+
+/-- under the standard's parameter requirements nothing divides by zero: `progOK` is `Instr.WF` -/
+theorem line_progOK_of_WF (p : Params) (ver : Nat) (is : List Instr) (hp : p.WF ver = true)
+    (his : is.all (Instr.WF p ver) = true) : progOK p ver is = true := by
+  have h1 := pwf_maxOps hp
+  have h2 := pwf_lineRange hp
+  have hm : p.maxOps ≠ 0 := by omega
+  have hl : p.lineRange ≠ 0 := by omega
+  simp only [progOK, List.all_eq_true] at his ⊢
+  intro i hi
+  simp [his i hi, Instr.divZero, hm, hl]
+
+/-- **End to end, versions 2–5, any `header_length` ≥ the known fields, encodable parameters.** -/
+theorem line_program_end_to_end_ext (env : Env) (cfg : DwarfCfg) (msecs : Secs) (h : Header) (secs : StrSecs)
+    (ext : Bytes) (is : List Instr) (pre rest : Bytes) (attrs : Fields)
+    (hwf : unitWFX h secs ext (encodeProgram h.p is) = true) (hs : h.p.stdLensOK = true)
+    (hprog : progOK h.p h.version is = true)
+    (hle : h.p.le = cfg.le) (hasz : h.p.asz = cfg.asz) (hfmt : cfg.fmt = if h.fmt64 then 64 else 32)
+    (henv : h.version ≥ 5 → EnvOK env) (hsecs : h.version ≥ 5 → SecsView msecs secs)
+    (hattr : Fields.get? attrs "DW_AT_stmt_list" = some (.int (pre.length : Int)))
+    (hsz : pre.length + (encodeUnitX h ext (encodeProgram h.p is)).length ≤ ssizeMax) :
+    ∃ lp cache entries files,
+      lineProgramForCU env (Spec.dwarfStructs cfg) cfg.fmt msecs
+          (pre ++ encodeUnitX h ext (encodeProgram h.p is) ++ rest) [] attrs = .ok (some lp, cache)
+      ∧ lp.header = h.observeX secs ext (encodeProgram h.p is)
+      ∧ lp.program_start_offset = pre.length + headerSizeX h ext
+      ∧ decodeLineProgram env (Spec.dwarfStructs cfg) specConsts
+          (pre ++ encodeUnitX h ext (encodeProgram h.p is) ++ rest) lp = .ok (entries, files, lp.program_end_offset)
+      ∧ rowsOf entries = stdRun h.p is := by
+  obtain ⟨es, hrun, hrows⟩ := decode_lpOfX (env := env) (cfg := cfg) h secs ext is pre rest hwf hs hprog hle hasz hsz
+  refine ⟨lpOfX h secs ext (encodeProgram h.p is) pre.length,
+    [(pre.length, lpOfX h secs ext (encodeProgram h.p is) pre.length)], es, _, ?_, rfl, rfl, hrun, hrows⟩
+  rw [lineProgramForCU_some [] attrs pre.length hattr]
+  have hp := parseFreshX_all (env := env) (cfg := cfg) msecs h secs ext (encodeProgram h.p is) pre rest hwf hle hfmt
+    henv hsecs
+  simp only [parseLineProgramAtOffset, List.find?_nil, hp, bind, Except.bind, pure, Except.pure, List.nil_append]
+
+/-! ### version 5, composed: regenerated enum tables, resolved names, legacy views -/
+
+/-- the decoded version 5 header, field by field: `directories` / `file_names` are the encoded entries with
+    every DW_FORM_line_strp / strp / strp_sup offset replaced by the string it designates (`entryObs`),
+    `include_directory` the directories' paths, `file_entry` the file names reshaped to the version 2–4
+    record (name, dir_index, mtime, length; absent content types are `None`) -/
+theorem line_v5_observed_header (h : Header) (secs : StrSecs) (ext body : Bytes) (hv5 : h.version ≥ 5) :
+    h.observeX secs ext body = .record [
+      ("unit_length", .int (h.midX ext ++ h.tail ++ ext ++ body).length),
+      ("version", .int h.version), ("address_size", .int h.p.asz), ("segment_selector_size", .int h.segSel),
+      ("header_length", .int (h.tail.length + ext.length : Nat)),
+      ("minimum_instruction_length", .int h.p.minInst),
+      ("maximum_operations_per_instruction", .int h.p.maxOps),
+      ("default_is_stmt", .int h.p.defaultIsStmt), ("line_base", .int h.p.lineBase),
+      ("line_range", .int h.p.lineRange), ("opcode_base", .int h.p.opcodeBase),
+      ("standard_opcode_lengths", .list (h.p.stdLens.map fun n => .int (Int.ofNat n))),
+      ("directory_entry_format", fmtObs h.dirFmt),
+      ("directories", .list (h.dirs.map fun e => .record (entryObs secs h.dirFmt e))),
+      ("file_name_entry_format", fmtObs h.fileFmt),
+      ("file_names", .list (h.fileNames.map fun e => .record (entryObs secs h.fileFmt e))),
+      ("include_directory", .list (h.dirs.map fun e => Spec.Line.getOrNone (entryObs secs h.dirFmt e) "DW_LNCT_path")),
+      ("file_entry", .list (h.fileNames.map fun e => legacyFile (entryObs secs h.fileFmt e)))] := by
+  rw [Header.observeX, observeG_v5 h secs _ _ hv5]
+  rfl
+
+/-- **Header, version 5 (composed).**  With the enum tables regenerated from the library (`gen_env_ok`): for
+    every encodable version 5 unit — `address_size`, `segment_selector_size`, directory / file-name entry
+    formats over every (content type, form) pair §6.2.4.1 allows (DW_FORM_string, line_strp, strp, strp_sup,
+    udata, data1/2/4/8, data16 (MD5), block), any positive number of directories and files, both DWARF formats
+    and byte orders, extension bytes covered by `header_length`, surrounding bytes — parsing the Spec encoding
+    yields exactly the described header (`line_v5_observed_header`) and the program's extent. -/
+theorem line_header_roundtrip_v5 (cfg : DwarfCfg) (msecs : Secs) (h : Header) (secs : StrSecs)
+    (ext body pre rest : Bytes) (hv5 : h.version = 5) (hwf : unitWFX h secs ext body = true)
+    (hle : h.p.le = cfg.le) (hfmt : cfg.fmt = if h.fmt64 then 64 else 32) (hsecs : SecsView msecs secs) :
+    parseLineProgramFresh (Model.dwarfEnv (Spec.dwarfStructs cfg)) (Spec.dwarfStructs cfg) cfg.fmt msecs
+        (pre ++ encodeUnitX h ext body ++ rest) pre.length
+      = .ok (lpOfX h secs ext body pre.length)
+    ∧ (lpOfX h secs ext body pre.length).header = h.observeX secs ext body
+    ∧ (lpOfX h secs ext body pre.length).fileEntry = none :=
+  ⟨parseFreshX_all msecs h secs ext body pre rest hwf hle hfmt (fun _ => gen_env_ok _) (fun _ => hsecs), rfl,
+   by simp [lpOfX, hv5]⟩
+
+/-- **Designation, version 5.**  Through `line_program_for_CU`: the unit's DW_AT_stmt_list designates the
+    version 5 program at that offset, which is parsed (once: it is in `_linetable_cache` afterwards) into the
+    `LineProgram` object of `line_header_roundtrip_v5`. -/
+theorem stmt_list_designates_v5 (cfg : DwarfCfg) (msecs : Secs) (h : Header) (secs : StrSecs)
+    (ext body pre rest : Bytes) (attrs : Fields) (hv5 : h.version = 5) (hwf : unitWFX h secs ext body = true)
+    (hle : h.p.le = cfg.le) (hfmt : cfg.fmt = if h.fmt64 then 64 else 32) (hsecs : SecsView msecs secs)
+    (hattr : Fields.get? attrs "DW_AT_stmt_list" = some (.int (pre.length : Int))) :
+    lineProgramForCU (Model.dwarfEnv (Spec.dwarfStructs cfg)) (Spec.dwarfStructs cfg) cfg.fmt msecs
+        (pre ++ encodeUnitX h ext body ++ rest) [] attrs
+      = .ok (some (lpOfX h secs ext body pre.length), [(pre.length, lpOfX h secs ext body pre.length)]) := by
+  rw [lineProgramForCU_some [] attrs pre.length hattr]
+  have hp := (line_header_roundtrip_v5 cfg msecs h secs ext body pre rest hv5 hwf hle hfmt hsecs).1
+  simp only [parseLineProgramAtOffset, List.find?_nil, hp, bind, Except.bind, pure, Except.pure, List.nil_append]
+
+/-- **End to end, version 5 (header + rows + extent).** -/
+theorem line_program_end_to_end_v5 (cfg : DwarfCfg) (msecs : Secs) (h : Header) (secs : StrSecs)
+    (ext : Bytes) (is : List Instr) (pre rest : Bytes) (attrs : Fields) (hv5 : h.version = 5)
+    (hwf : unitWFX h secs ext (encodeProgram h.p is) = true) (hs : h.p.stdLensOK = true)
+    (hprog : progOK h.p h.version is = true)
+    (hle : h.p.le = cfg.le) (hasz : h.p.asz = cfg.asz) (hfmt : cfg.fmt = if h.fmt64 then 64 else 32)
+    (hsecs : SecsView msecs secs)
+    (hattr : Fields.get? attrs "DW_AT_stmt_list" = some (.int (pre.length : Int)))
+    (hsz : pre.length + (encodeUnitX h ext (encodeProgram h.p is)).length ≤ ssizeMax) :
+    ∃ lp cache entries,
+      lineProgramForCU (Model.dwarfEnv (Spec.dwarfStructs cfg)) (Spec.dwarfStructs cfg) cfg.fmt msecs
+          (pre ++ encodeUnitX h ext (encodeProgram h.p is) ++ rest) [] attrs = .ok (some lp, cache)
+      ∧ lp.header = h.observeX secs ext (encodeProgram h.p is)
+      ∧ lp.program_start_offset = pre.length + headerSizeX h ext
+      ∧ lp.program_end_offset = pre.length + (encodeUnitX h ext (encodeProgram h.p is)).length
+      ∧ decodeLineProgram (Model.dwarfEnv (Spec.dwarfStructs cfg)) (Spec.dwarfStructs cfg) specConsts
+          (pre ++ encodeUnitX h ext (encodeProgram h.p is) ++ rest) lp = .ok (entries, none, lp.program_end_offset)
+      ∧ rowsOf entries = stdRun h.p is := by
+  obtain ⟨es, hrun, hrows⟩ := decode_lpOfX (env := Model.dwarfEnv (Spec.dwarfStructs cfg)) (cfg := cfg) h secs ext is pre rest
+    hwf hs hprog hle hasz hsz
+  refine ⟨_, _, es, stmt_list_designates_v5 cfg msecs h secs ext _ pre rest attrs hv5 hwf hle hfmt hsecs hattr,
+    rfl, rfl, rfl, ?_, hrows⟩
+  rw [hrun]
+  simp [lpOfX, hv5]
+
+/-! ### boundary values of the parameters, as facts about the standard's machine and the decoder -/
+
+/-- `minimum_instruction_length = 0`: no operation advance moves the address (`op_index` still advances) -/
+theorem std_min_inst_zero (p : Params) (r : Row) (n : Nat) (h : p.minInst = 0) :
+    (r.advance p n).address = r.address ∧ (r.advance p n).opIndex = (r.opIndex + n) % p.maxOps := by
+  simp [Row.advance, h]
+
+/-- `maximum_operations_per_instruction = 1` (non-VLIW): `op_index` stays 0, the address moves by
+    `minimum_instruction_length * operation advance` -/
+theorem std_max_ops_one (p : Params) (r : Row) (n : Nat) (h : p.maxOps = 1) (h0 : r.opIndex = 0) :
+    (r.advance p n).address = r.address + p.minInst * n ∧ (r.advance p n).opIndex = 0 := by
+  simp [Row.advance, h, h0, Nat.mod_one]
+
+def edgeParams (minInst maxOps lineRange : Nat) : Params :=
+  { le := true, asz := 8, minInst := minInst, maxOps := maxOps, defaultIsStmt := 1, lineBase := -5,
+    lineRange := lineRange, opcodeBase := 13, stdLens := knownStdLens }
+
+/-- 255 / 255: ordinary values (they are in `Params.WF`, the theorems of the first waves cover them) -/
+example : (edgeParams 255 255 14).WF 4 = true := by decide
+example : (edgeParams 0 1 255).WF 2 = true := by decide
+
+theorem std_min_inst_255_max_ops_255 :
+    (stdRun (edgeParams 255 255 14) [.advancePc ⟨254, 2⟩, .copy, .special 32, .advancePc ⟨300, 2⟩, .copy]).map
+        (fun r => (r.address, r.opIndex, r.line))
+      = [(0, 254, 1), (255, 0, 1), (510, 45, 1)] := by decide
+
+/-- 0 divisors are encodable but not in `Params.WF` -/
+example : (edgeParams 1 0 14).WFenc 4 = true ∧ (edgeParams 1 0 14).WF 4 = false := by decide
+example : (edgeParams 1 1 0).WFenc 4 = true ∧ (edgeParams 1 1 0).WF 4 = false := by decide
+
+/-! ### non-vacuity of the fourth-wave theorems -/
+
+/-- a version 4 unit with `maximum_operations_per_instruction = 0` AND `line_range = 0`, three extension
+    bytes (which would decode as three DW_LNS_copy) and a program that never divides -/
+def exHeaderZ : Header := { exHeader with p := edgeParams 4 0 0 }
+def exExt : Bytes := [1, 1, 1]
+def exProgramZ : List Instr :=
+  [.setAddress 1 0x1000, .advanceLine ⟨-1, 2⟩, .fixedAdvancePc 16, .copy, .setDiscriminator 1 ⟨7, 1⟩,
+   .unknownExt 1 0x80 [1, 2], .copy, .endSequence 1]
+
+example : unitWFX exHeaderZ ⟨[], [], none⟩ exExt (encodeProgram exHeaderZ.p exProgramZ) = true := by decide
+example : exHeaderZ.p.stdLensOK = true := by decide
+example : progOK exHeaderZ.p exHeaderZ.version exProgramZ = true := by decide
+/-- … and one that does, after a prefix that does not -/
+example : progOK exHeaderZ.p exHeaderZ.version [.setAddress 1 0x1000, .copy] = true
+    ∧ (Instr.special 0x4b).WF exHeaderZ.p exHeaderZ.version = true
+    ∧ (Instr.special 0x4b).divZero exHeaderZ.p = true
+    ∧ unitWFX exHeaderZ ⟨[], [], none⟩ exExt
+        (encodeProgram exHeaderZ.p ([.setAddress 1 0x1000, .copy] ++ .special 0x4b :: [.copy])) = true := by decide
+
+/-- the version 5 units of the earlier instances, with extension bytes -/
+example : unitWFX exHeader5 exSecs5 exExt (encodeProgram exHeader5.p exProgram5) = true := by decide
+example : unitWFX exHeader5b exSecs5b [0xde, 0xad] (encodeProgram exHeader5b.p exProgram5) = true := by decide
+example : exHeader5.p.stdLensOK = true ∧ progOK exHeader5.p exHeader5.version exProgram5 = true := by decide
+
+/-- `line_header_roundtrip_v5` instantiated -/
+example :
+    parseLineProgramFresh (Model.dwarfEnv (Spec.dwarfStructs exCfg5)) (Spec.dwarfStructs exCfg5) 64
+        ⟨some exSecs5.lineStr, some exSecs5.str, none⟩
+        ([0xAA] ++ encodeUnitX exHeader5 exExt (encodeProgram exHeader5.p exProgram5) ++ [0xBB]) 1
+      = .ok (lpOfX exHeader5 exSecs5 exExt (encodeProgram exHeader5.p exProgram5) 1) :=
+  (line_header_roundtrip_v5 exCfg5 _ exHeader5 exSecs5 exExt _ [0xAA] [0xBB] rfl (by decide) rfl rfl
+    ⟨rfl, rfl, fun _ h => (by cases h), (by decide), (by decide), fun _ h => (by cases h)⟩).1
+
+/-- the defect repaired in this wave, as a closed instance run by the kernel: three extension bytes `01 01 01`
+    covered by `header_length` are NOT executed (the unrepaired code delivered three extra rows) -/
+theorem line_header_length_instance :
+    (match parseLineProgramFresh (Model.dwarfEnv (Spec.dwarfStructs ⟨true, 32, 8, 4⟩)) (Spec.dwarfStructs ⟨true, 32, 8, 4⟩) 32
+        ⟨none, none, none⟩ ([0xAA] ++ encodeUnitX exHeader exExt (encodeProgram exHeader.p exProgram) ++ [0xBB]) 1 with
+     | .ok lp =>
+       (match decodeLineProgram (Model.dwarfEnv (Spec.dwarfStructs ⟨true, 32, 8, 4⟩)) (Spec.dwarfStructs ⟨true, 32, 8, 4⟩)
+           specConsts ([0xAA] ++ encodeUnitX exHeader exExt (encodeProgram exHeader.p exProgram) ++ [0xBB]) lp with
+        | .ok (es, _, tell) => decide (rowsOf es = stdRun exHeader.p exProgram)
+            && decide (tell = 1 + (encodeUnitX exHeader exExt (encodeProgram exHeader.p exProgram)).length)
+            && decide (lp.program_start_offset = 1 + headerSize exHeader + 3)
+        | .error _ => false)
+     | .error _ => false) = true := by decide +kernel
+
+/-- ZeroDivisionError, as a closed instance run by the kernel -/
+theorem line_zero_division_instance :
+    (match parseLineProgramFresh (Model.dwarfEnv (Spec.dwarfStructs ⟨true, 32, 8, 4⟩)) (Spec.dwarfStructs ⟨true, 32, 8, 4⟩) 32
+        ⟨none, none, none⟩ (encodeUnitX exHeaderZ [] (encodeProgram exHeaderZ.p [.copy, .special 0x4b, .copy])) 0 with
+     | .ok lp =>
+       (match decodeLineProgram (Model.dwarfEnv (Spec.dwarfStructs ⟨true, 32, 8, 4⟩)) (Spec.dwarfStructs ⟨true, 32, 8, 4⟩)
+           specConsts (encodeUnitX exHeaderZ [] (encodeProgram exHeaderZ.p [.copy, .special 0x4b, .copy])) lp with
+        | .error e => e == .zeroDivision
+        | .ok _ => false)
      | .error _ => false) = true := by decide +kernel
 
 end PyElf.Props.C05
